@@ -81,6 +81,27 @@ class Sim:
         self._by_ident: dict[int, Task] = {}
         self._in_sched = False  # wake predicates may call traced halmos code: never pre-empt there
         self.idle_labels = {"pool.idle"}
+        # an asynchronous interrupt (a signal handler): runs on the stack of one task at one of its scheduling points
+        self.interrupt: dict | None = None
+
+    def set_interrupt(self, task_name: str, after_steps: int, handler):
+        """handler() is called on the stack of the named task at its first scheduling point once `after_steps` scheduler steps
+        have passed (at quiescence at the latest); it may raise, like a signal handler calling sys.exit"""
+        self.interrupt = dict(task=task_name, due=after_steps, handler=handler, delivered=False)
+
+    def _interrupt_due(self, t: Task) -> bool:
+        it = self.interrupt
+        return it is not None and not it["delivered"] and t.name == it["task"] and self.steps >= it["due"]
+
+    def _deliver(self, me: Task) -> bool:
+        if not self._interrupt_due(me):
+            return False
+        it = self.interrupt
+        it["delivered"] = True
+        self.fault("interrupt_delivered")
+        self._log(me.name, "interrupt:" + me.label.split(":")[0])
+        it["handler"]()
+        return True
 
     # ------------------------------------------------------------------ bookkeeping
     def fault(self, kind: str, n: int = 1):
@@ -165,18 +186,30 @@ class Sim:
         me.state = "ready"
         me.label = label
         self._schedule(me)
+        self._deliver(me)
 
     def block(self, label: str, pred, deadline: float = INF) -> bool:
         """park until pred() is true (-> True) or the simulated clock reaches deadline (-> False)"""
         if self.aborted:
             raise SimAbort()
         me = self.me()
-        me.state = "blocked"
-        me.pred = pred
-        me.deadline = deadline
-        me.label = label
-        me.timed_out = False
-        self._schedule(me)
+        while True:
+            me.state = "blocked"
+            me.pred = pred
+            me.deadline = deadline
+            me.label = label
+            me.timed_out = False
+            self._schedule(me)
+            if self._deliver(me) and me.timed_out and self.now < deadline:
+                self._in_sched = True
+                try:
+                    again = not pred()
+                finally:
+                    self._in_sched = False
+                if again:
+                    continue  # woken for the interrupt only and its handler returned: keep waiting
+                me.timed_out = False
+            break
         return not me.timed_out
 
     def sleep(self, d: float, label: str = "sleep"):
@@ -193,6 +226,8 @@ class Sim:
                 if t.pred():
                     out.append(t)
                 elif t.deadline <= now:
+                    out.append(t)
+                elif self._interrupt_due(t):
                     out.append(t)
         # the current task first, so that choice 0 means "no context switch"
         if me in out:
@@ -229,6 +264,10 @@ class Sim:
             if runnable:
                 break
             nt = self._next_time()
+            if nt == INF and self.interrupt is not None and not self.interrupt["delivered"] and self.interrupt["due"] > self.steps \
+                    and any(t.name == self.interrupt["task"] and t.state != "done" for t in self.tasks):
+                self.interrupt["due"] = self.steps  # nothing else can happen: the signal arrives now
+                continue
             if nt == INF:
                 self.deadlock_info = [f"{t.name}:{t.label}" for t in self.tasks if t.state == "blocked"]
                 # idle workers of a thread pool nobody shut down are not a hang: in the stdlib they are reaped
